@@ -83,6 +83,7 @@ type Node struct {
 	Sync      *synchronizer.Synchronizer
 	Cmds      *clientpb.CommandCache
 	LR        *RecLeader
+	timerRec  *recDuration
 	cancel    context.CancelFunc
 }
 
@@ -122,7 +123,8 @@ func NewNode(m *Member, o NodeOpts) (*Node, error) {
 	n.Comm = comm.NewClique(m.Cfg, n.VM, n.LR, m.Sender)
 	n.Voter = consensus.NewVoter(m.Cfg, n.LR, n.Rules, n.Comm, m.Auth, n.Committer)
 	n.Proposer = consensus.NewProposer(m.EL, m.Cfg, m.Chain, n.VS, n.Rules, n.Comm, n.Voter, n.Cmds, n.Committer)
-	n.Sync = synchronizer.New(m.EL, m.Logger, m.Cfg, m.Auth, n.LR, synchronizer.NewFixedDuration(time.Hour),
+	n.timerRec = &recDuration{inner: synchronizer.NewFixedDuration(time.Hour), vs: n.VS}
+	n.Sync = synchronizer.New(m.EL, m.Logger, m.Cfg, m.Auth, n.LR, n.timerRec,
 		synchronizer.NewTimeoutRuler(m.Cfg, m.Auth), n.Proposer, n.Voter, n.VS, m.Sender)
 	return n, nil
 }
@@ -156,6 +158,37 @@ func (n *Node) Drain(max int) (handled int, pan any, stack string) {
 		handled++
 	}
 	return
+}
+
+// recDuration is the node's ViewDuration. The synchronizer asks it for a duration exactly when it starts a view timer,
+// right after it captured the view that timer will report; recording the replica's view at that moment tells the harness
+// which view the pending timer carries - a harness-fired timeout must carry that view, as the real timer would.
+type recDuration struct {
+	inner     synchronizer.ViewDuration
+	vs        *protocol.ViewStates
+	mu        sync.Mutex
+	timerView hotstuff.View
+	armed     bool
+}
+
+func (d *recDuration) Duration() time.Duration {
+	d.mu.Lock()
+	d.timerView, d.armed = d.vs.View(), true
+	d.mu.Unlock()
+	return d.inner.Duration()
+}
+func (d *recDuration) ViewStarted()   { d.inner.ViewStarted() }
+func (d *recDuration) ViewSucceeded() { d.inner.ViewSucceeded() }
+func (d *recDuration) ViewTimeout()   { d.inner.ViewTimeout() }
+
+// TimerView returns the view the replica's pending view timer was started for (the view its TimeoutEvent will carry).
+func (n *Node) TimerView() hotstuff.View {
+	n.timerRec.mu.Lock()
+	defer n.timerRec.mu.Unlock()
+	if !n.timerRec.armed {
+		return n.VS.View()
+	}
+	return n.timerRec.timerView
 }
 
 // StopTimer stops the synchronizer's pending view timer. The harness fires timeouts itself (TimeoutEvent) and
